@@ -227,7 +227,7 @@ static void hist_case(Case& cs, const Profile& pf) {
   gen::RecOpts ro;
   if (!pf.enum_mode) { pools = gen::make_pools(c); tc = gen::gen_timectx(c); }
   ro.pres = pf.enum_mode ? 4 : pf.pres_fixed ? pf.pres_fixed : (unsigned)c.pick<int>({4, 1, 7, 2, 6, 8});
-  ro.big = pf.big_strings ? 5000 : 300;
+  ro.big = pf.big_strings ? (pf.ops_per_size >= 10 ? 70000 : 5000) : 300;
   gen::BpOpts bo;
   bo.full_hint_modes = pf.hint_modes;
   bo.any_tps = pf.any_tps;
@@ -632,6 +632,8 @@ static void hist_case(Case& cs, const Profile& pf) {
   if (had_ext) st.cls("external_block");
   if (had_empty_struct) st.cls("empty_statistics");
   if (had_big_block) st.cls("block>2KiB");
+  if (total_bytes > 3 * 65535) st.cls("output>3_decoder_windows");
+  else if (total_bytes > 65535) st.cls("output>1_decoder_window");
   if (had_buffer_flush) st.cls("flush_by_buffer_call");
   if (had_switch_flush) st.cls("flush_after_parameter_switch");
   if (comp) st.cls(comp == 1 ? "gzip" : "xz");
@@ -659,6 +661,7 @@ static void hist_case(Case& cs, const Profile& pf) {
 // ---- profiles --------------------------------------------------------------------------------
 static Profile P_C01() { Profile p; p.name = "c01"; p.oracles = O_C01; p.w_setactive = 2; p.max_sets = 3; return p; }
 static Profile P_C01BIG() { Profile p = P_C01(); p.name = "c01big"; p.big_strings = true; p.ops_per_size = 3; return p; }
+static Profile P_C01HUGE() { Profile p = P_C01(); p.name = "c01huge"; p.big_strings = true; p.ops_per_size = 12; p.w_qr = 20; p.w_write = 1; p.pres_fixed = 6; return p; }
 static Profile P_C02() { Profile p; p.name = "c02"; p.oracles = O_C02; p.w_ext = 3; p.w_rotate = 2; p.w_addbp = 1; p.w_setactive = 2; return p; }
 static Profile P_C04() { Profile p; p.name = "c04"; p.oracles = O_C04; p.pres_fixed = 7; p.w_write = 1; p.max_sets = 3; p.w_setactive = 2; p.any_tps = false; p.empty_structs = false; return p; }
 static Profile P_C10() { Profile p = P_C02(); p.name = "c10"; p.oracles = O_C10; p.big_strings = true; return p; }
@@ -671,7 +674,7 @@ static Profile P_C17() { Profile p; p.name = "c17"; p.oracles = O_C17 | O_C01; p
 
 int main(int argc, char** argv) {
   Registry r;
-  static Profile ps[] = {P_C01(), P_C01BIG(), P_C02(), P_C04(), P_C10(), P_C11(), P_C12(), P_C12E(), P_C13(), P_C14(), P_C17()};
+  static Profile ps[] = {P_C01(), P_C01BIG(), P_C01HUGE(), P_C02(), P_C04(), P_C10(), P_C11(), P_C12(), P_C12E(), P_C13(), P_C14(), P_C17()};
   for (auto& p : ps) { const Profile* pp = &p; r.add(std::string("hist_") + p.name, [pp](Case& cs) { hist_case(cs, *pp); }); }
   return harness_main(argc, argv, r);
 }
